@@ -55,14 +55,14 @@ func (s *c02FakeStream) Read(p []byte) (int, error) {
 	s.segs[0] = s.segs[0][n:]
 	return n, nil
 }
-func (s *c02FakeStream) CancelRead(quic.StreamErrorCode)    {}
-func (s *c02FakeStream) SetReadDeadline(time.Time) error    { return nil }
-func (s *c02FakeStream) Write(p []byte) (int, error)        { return len(p), nil }
-func (s *c02FakeStream) Close() error                       { return nil }
-func (s *c02FakeStream) CancelWrite(quic.StreamErrorCode)   {}
-func (s *c02FakeStream) Context() context.Context           { return s.ctx }
-func (s *c02FakeStream) SetWriteDeadline(time.Time) error   { return nil }
-func (s *c02FakeStream) SetDeadline(time.Time) error        { return nil }
+func (s *c02FakeStream) CancelRead(quic.StreamErrorCode)  {}
+func (s *c02FakeStream) SetReadDeadline(time.Time) error  { return nil }
+func (s *c02FakeStream) Write(p []byte) (int, error)      { return len(p), nil }
+func (s *c02FakeStream) Close() error                     { return nil }
+func (s *c02FakeStream) CancelWrite(quic.StreamErrorCode) {}
+func (s *c02FakeStream) Context() context.Context         { return s.ctx }
+func (s *c02FakeStream) SetWriteDeadline(time.Time) error { return nil }
+func (s *c02FakeStream) SetDeadline(time.Time) error      { return nil }
 
 type c02FakeConn struct {
 	quic.Connection // nil: anything not overridden must not be reached
@@ -96,10 +96,10 @@ func (c *c02FakeConn) AcceptStream(ctx context.Context) (quic.Stream, error) {
 	return nil, errors.New("c02: closed")
 }
 func (c *c02FakeConn) CloseWithError(quic.ApplicationErrorCode, string) error { return nil }
-func (c *c02FakeConn) ConnectionState() quic.ConnectionState                 { return quic.ConnectionState{} }
-func (c *c02FakeConn) LocalAddr() net.Addr                                   { return &net.UDPAddr{} }
-func (c *c02FakeConn) RemoteAddr() net.Addr                                  { return &net.UDPAddr{} }
-func (c *c02FakeConn) SendDatagram([]byte) error                             { return nil }
+func (c *c02FakeConn) ConnectionState() quic.ConnectionState                  { return quic.ConnectionState{} }
+func (c *c02FakeConn) LocalAddr() net.Addr                                    { return &net.UDPAddr{} }
+func (c *c02FakeConn) RemoteAddr() net.Addr                                   { return &net.UDPAddr{} }
+func (c *c02FakeConn) SendDatagram([]byte) error                              { return nil }
 func (c *c02FakeConn) ReceiveDatagram(ctx context.Context) ([]byte, error) {
 	<-ctx.Done()
 	return nil, ctx.Err()
@@ -166,7 +166,7 @@ func c02ErrClass(err error) string {
 		return "eof"
 	case errors.Is(err, io.ErrUnexpectedEOF):
 		return "unexpectedEOF"
-	case errors.Is(err, errTooMuchData):
+	case strings.Contains(err.Error(), "peer sent too much data"):
 		return "tooMuchData"
 	case errors.As(err, &he), errors.As(err, &se):
 		return "reset"
